@@ -32,6 +32,18 @@ class Ctx:
         self.extra = {}
         self.t0 = time.time()
         self.known = load_known()
+        self.errors = []       # CheckErrors raised by individual rules (the other rules still run)
+
+    def run_rules(self, fns):
+        """Run each rule function; a rule that cannot decide (CheckError) or crashes does not stop the others."""
+        import traceback
+        for f in fns:
+            try:
+                f(self)
+            except CheckError as e:
+                self.errors.append("%s: %s" % (getattr(f, "__name__", "rule"), e))
+            except Exception:
+                self.errors.append("%s: internal error: %s" % (getattr(f, "__name__", "rule"), traceback.format_exc()[-600:]))
 
     # ---- declaring rules / obligations
     def rule(self, rid, text):
@@ -134,6 +146,9 @@ class Ctx:
             "notes": self.notes,
         }
         cov.update(self.extra)
+        if self.errors:
+            cov["check_errors"] = self.errors
+            cov["explanation"] = ("CHECK-ERROR in %d rule(s) — those rules could not decide: %s || " % (len(self.errors), " | ".join(e[:200] for e in self.errors))) + cov["explanation"]
         ev = {
             "property_id": self.prop,
             "tier": self.tier,
@@ -150,6 +165,8 @@ class Ctx:
             print("KNOWN-FINDING: property=%s %s at %s — %s" % (self.prop, o["rule"], o["site"], o["finding"].get("what", o["why"])))
         print("%s %s: %d obligations, %d ok, %d reviewed exceptions, %d known findings, %d violated (%.1fs)"
               % (self.prop, self.tier, len(self.obs), len(okc), len(exc), len(kf), len(viol), wall))
+        for e in self.errors:
+            print("CHECK-ERROR property=%s: %s" % (self.prop, e[:600]))
         if viol:
             os.makedirs(REPLAY_DIR, exist_ok=True)
             for n, o in enumerate(viol):
@@ -160,6 +177,8 @@ class Ctx:
                 print("  violated: %s | %s | %s | %s" % (o["rule"], o["site"], o.get("loc", ""), o["why"]))
                 print("VIOLATION property=%s replay=%s" % (self.prop, p))
             return 1
+        if self.errors:
+            return 2
         return 0
 
 
